@@ -83,6 +83,7 @@ def analyze(ctx, want):
         # --- d3..d5 inner loop body
         body = 0
         acc_cases = set()
+        analysed_push_bbs = set()
         id_cases = set()
         for p in paths:
             ti = p.calls(r"HashSet::<.*>::insert$")
@@ -163,6 +164,7 @@ def analyze(ctx, want):
                 anyc = [(c, o) for c, o in p.conds if c[0] == "app" and re.search(r"Iterator>::any::", c[1])]
                 allc = [(c, o) for c, o in p.conds if c[0] == "app" and re.search(r"Iterator>::all::", c[1])]
                 pushes = [e for e in p.events if e[0] == "call" and is_accepting_push(e[2])]
+                analysed_push_bbs.update(e[1] for e in pushes if e[6] == fn.name)
                 if allc:
                     ob("C02.d", "multi:accepting-iff-some-member-is-an-end-state", False, "acceptance is decided with all() over the closure", fn.loc())
                 if anyc:
@@ -190,6 +192,7 @@ def analyze(ctx, want):
             else:
                 cont = [(c, o) for c, o in p.conds if c[0] == "app" and re.search(r"BTreeSet::<.*>::contains", c[1])]
                 pushes = [e for e in p.events if e[0] == "call" and is_accepting_push(e[2])]
+                analysed_push_bbs.update(e[1] for e in pushes if e[6] == fn.name)
                 if cont:
                     c, o = cont[0]
                     ok_end = "nfa.end_state" in S.fstr(c) and tc is not None and S.mentions(c, lambda x: x == tc[4])
@@ -208,6 +211,13 @@ def analyze(ctx, want):
         if "C02.d" in want:
             ctx.floor("C02.d", "%s: inner-loop body paths" % tag, body, 2)
         ob("C02.d", "%s:acceptance-cases-complete" % tag, {"accepting", "non-accepting"} <= acc_cases, "cases %s" % sorted(acc_cases), fn.loc())
+        # closed set: every place that records an accepting state is one of those analysed above — the closure of a transition's
+        # target.  (The start state is never recorded: the simulation reports nothing before a character is read, and the DOT
+        # export draws state 0 as the start state only — seed C18k.)
+        sites_ = sorted(bb_ for bb_, t_ in fn.calls() if is_accepting_push(M.call_name(t_)))
+        extra_ = [bb_ for bb_ in sites_ if bb_ not in analysed_push_bbs]
+        ob("C02.d", "%s:accepting-states-are-recorded-for-transition-targets-only" % tag, not extra_,
+           "%d place(s) record an accepting state, %d outside the per-target analysis%s" % (len(sites_), len(extra_), (" (%s)" % ", ".join(fn.loc(b_) for b_ in extra_)) if extra_ else ""), fn.loc(extra_[0]) if extra_ else fn.loc())
         # --- d4 both cases of the id lookup occur (a fresh closure gets a new id and is enqueued; a known one keeps its id)
         ob("C02.d", "%s:known-and-new-closures-handled" % tag, id_cases == {"new", "known"}, "cases %s" % sorted(id_cases), fn.loc())
         # --- d6/d7 assembly of the automaton
